@@ -884,6 +884,13 @@ def atoms_of(term, val):
                     elif op == "Ge":
                         op, a, b = "Le", b, a
                     out.append(("rel", op, a, b))
+            # (a..=b).contains(&x) / (a..b).contains(&x) true: both bounds (false is a disjunction: no atom)
+            if truth and n.endswith("::contains") and "ops::Range" in n and len(t[2]) == 2:
+                rg, x = strip(t[2][0]), strip(t[2][1])
+                if rg[0] == "call" and rg[1].endswith("RangeInclusive::<Idx>::new") and len(rg[2]) == 2:
+                    out += [("rel", "Le", rg[2][0], x), ("rel", "Le", x, rg[2][1])]
+                elif rg[0] == "agg" and rg[1].endswith("ops::Range") and len(rg[2]) == 2:
+                    out += [("rel", "Le", rg[2][0], x), ("rel", "Lt", x, rg[2][1])]
         return out
     if val[0] == "eq":
         return [("rel", "Eq", t, ("int", val[1]))]
